@@ -43,6 +43,7 @@ def one(rec, hub, tier, seed, letters, pat, pi, what, ai, assign):
     elif what == "misc":
         sub = letters[: ai % (len(letters) + 1)]
         drv.do_errors(hub, U, sub, rng)
+        drv.do_close_labels_and_copies(hub, U, sub, rng)
         drv.do_items_where_split(hub, U, sub, rng)
         drv.do_whole_array(hub, U, sub, rng)
         drv.do_float32_targets(hub, U, sub, rng)
